@@ -1,7 +1,7 @@
 (* C06 -- Depression filling yields the minimal spill surface draining all cells (max_depth < 0). *)
 From Coq Require Import List Arith ZArith Bool.
 Import ListNotations.
-From PF Require Import Arr Codec Flood FloodSpec FloodTree.
+From PF Require Import Arr Codec Flood FloodSpec FloodTree FloodOpt.
 From PFG Require Import GenTables GenDrdc.
 Local Open Scope Z_scope.
 
@@ -27,9 +27,42 @@ Theorem flood_forest : forall nrow ncol elv nodata conn mode pits,
   let st := flood_state nrow ncol elv nodata conn mode pits in
   fill_depressions nrow ncol elv nodata conn mode pits = (map (filledv elv st) (seq 0 (nrow * ncol)), fd8 st) /\
   forall j, (j < nrow * ncol)%nat -> doneb st j = true -> isnodata elv nodata j = false ->
-    reach nrow ncol elv conn (pitroot nrow ncol st) st j.
+    reach nrow ncol elv nodata conn (pitroot nrow ncol st) st j.
 Proof. exact FloodTree.flood_forest_sec. Qed.
 Print Assumptions flood_forest.
+
+(* OPTIMALITY.  `spath j M` (FloodOpt.v): there is a path seed = v0, v1, ..., vk = j of steps allowed by the
+   connectivity, inside the raster, through valid cells, whose largest INPUT elevation is M.  Seeds are the cells
+   of the initial queue: the edge cells of the valid area (mode 0), the single lowest of them (mode 1), the user's
+   cells (mode 2) -- seeds_char.  For every raster, connectivity and outlet mode:
+   (upper)    every cell on such a path is finished and its filled level is <= M   (so: every valid cell connected
+              to an outlet is drained, and no path does better than the filled level from below);
+   (attained) every finished valid cell has such a path -- the one stored in the direction raster -- whose M EQUALS
+              its filled level.
+   Together: filled level = min over paths of the max input elevation on the path (the lowest level to which water
+   must rise to reach an outlet). *)
+Theorem flood_upper : forall nrow ncol elv nodata conn mode pits,
+  (mode = 2 -> forall p, In p pits -> isnodata elv nodata p = false) ->
+  forall j M, spath nrow ncol elv nodata conn mode pits j M ->
+  (j < nrow * ncol)%nat /\ isnodata elv nodata j = false /\
+  doneb (flood_state nrow ncol elv nodata conn mode pits) j = true /\
+  filledv elv (flood_state nrow ncol elv nodata conn mode pits) j <= M.
+Proof. exact FloodOpt.flood_upper. Qed.
+Print Assumptions flood_upper.
+
+Theorem flood_attained : forall nrow ncol elv nodata conn mode pits,
+  (mode = 2 -> forall p, In p pits -> isnodata elv nodata p = false) ->
+  forall j, (j < nrow * ncol)%nat -> doneb (flood_state nrow ncol elv nodata conn mode pits) j = true ->
+  isnodata elv nodata j = false ->
+  exists M, spath nrow ncol elv nodata conn mode pits j M /\ filledv elv (flood_state nrow ncol elv nodata conn mode pits) j = M.
+Proof. exact FloodOpt.flood_attained. Qed.
+Print Assumptions flood_attained.
+
+Theorem seeds_char : forall nrow ncol elv nodata conn mode pits, mode <> 1 -> forall j,
+  In j (seeds nrow ncol elv nodata conn mode pits) <->
+  ((j < nrow * ncol)%nat /\ (if mode =? 2 then memb j pits else is_edge nrow ncol elv nodata conn j) = true).
+Proof. exact FloodOpt.seeds_char. Qed.
+Print Assumptions seeds_char.
 
 (* the code stored for a cell reached by offset o decodes (regenerated drdc) to the step back to its parent *)
 Theorem us_points_back : forall o, In o offs8 -> d8_drdc (table_at d8_us (fst o) (snd o)) = (- fst o, - snd o).
